@@ -38,7 +38,7 @@ ImageBad(e) ==
                 LET px == (k - 1) % e.w  py == (k - 1) \div e.w
                     inside == box[1] <= px /\ px < box[3] /\ box[2] <= py /\ py < box[4]
                 IN IF ~inside THEN e.pix[k] # Zero
-                   ELSE e.pix[k] \notin ImageColours(e.src.img, ext, fil, Centre16(M, px, py), ab)}
+                   ELSE e.pix[k] \notin ImageColoursX(e.src.img, ext, fil, Centre16(M, px, py), ab, M.den <= 256)}
 
 (*------------------------------- gradients -------------------------------*)
 \* user-space position of the pixel centre as numerators over a common denominator
@@ -85,7 +85,12 @@ GradBad(e) ==
 Check ==
   LET e == Rec[i] IN
   IF e.outcome # "ok" THEN PrintT(<<"BAD", i, e.id, "panic">>)
-  ELSE LET bad == IF e.src.kind = "image" THEN ImageBad(e) ELSE GradBad(e)
+  ELSE LET bad0 == IF e.src.kind = "image" THEN ImageBad(e) ELSE GradBad(e)
+           \* drawn through a clip path: only pixels the clip covers fully are held to the source colour,
+           \* pixels it does not cover at all must be empty, the edge pixels are not examined
+           bad == IF Has(e, "clipcov")
+                  THEN {k \in bad0 : e.clipcov[k] = 255} \cup {k \in 1..(e.w * e.h) : e.clipcov[k] = 0 /\ e.pix[k] # Zero}
+                  ELSE bad0
        IN IF bad # {} THEN PrintT(<<"BAD", i, e.id, bad, LET k == CHOOSE k \in bad : TRUE IN <<k, e.pix[k]>>>>)
           ELSE IF ~e.ctm_after_same THEN PrintT(<<"BAD", i, e.id, "ctm">>)
           ELSE (\A k \in 1..(e.w * e.h) : e.pix[k] = Zero) \/ PrintT(<<"NT", i>>)
